@@ -700,10 +700,25 @@ def c09(run):
     run.cov["rule"] = ("every mutating call made through its *_log_patches variant (transactions incl. transaction_at, "
                        "apply_changes single/batch/out-of-order, load_incremental, merge) on 2-4 replicas with conflicted "
                        "registers, counters, lists, nested objects, text; the patches of each call are folded over the "
-                       "previous projection by View.tla and must give the new projection; non-trivial = scenario with "
+                       "previous projection by View.tla and must give the new projection; the remaining paths of the property "
+                       "(AutoCommit edits with diff_incremental, rollback, receiving sync messages, isolate / integrate, load "
+                       "with a patch log) run on private copies at the end of every scenario; non-trivial = scenario with "
                        "non-empty patches from a remote delivery")
     interp_trace(run, ["C09"], "conflictpatch", sizes(run, 150, 3000), has_remote_patches, spec="Trace_View.tla")
     interp_trace(run, ["C09"], "patch", sizes(run, 100, 2000), has_remote_patches, spec="Trace_View.tla")
+    # the paths the replicas of those programs do not take themselves, run on private AutoCommit copies at the end of
+    # every scenario (ptrans events: edits through AutoCommit, a rolled-back transaction, receiving sync messages,
+    # isolate / edits inside / integrate, load with a patch log); validated on their own so that a scenario cut at a
+    # listed finding does not hide them
+    from . import write_trace
+    for fam in ("conflictpatch", "patch"):
+        evs = [e for e in read_trace(os.path.join(run.work, fam + ".ndjson")) if e.get('ev') in ('ptrans', 'reset')]
+        tp = os.path.join(run.work, fam + "-paths.ndjson")
+        write_trace(tp, evs)
+        run.validate("Trace_View.tla", ["C09"], tp, fam + "-paths")
+        for e in evs:
+            if e.get('ev') == 'ptrans' and e.get('patches'):
+                run.nontrivial(("ptrans", fam, e.get('kind'), digest_of(e.get('patches'))))
 
 
 
